@@ -309,6 +309,9 @@ func (w *Worker) Dead() bool { return w.dead }
 
 func (w *Worker) StderrTail() string { return tail(w.stderr.String(), 4000) }
 
+// StderrAll returns everything kept of the worker's stderr (up to 256 KiB).
+func (w *Worker) StderrAll() string { return w.stderr.String() }
+
 // Close ends the worker and removes its data dir if it owns it.
 func (w *Worker) Close() {
 	if !w.dead {
